@@ -176,10 +176,8 @@ def st4 (g : Geo) (s : Rat) (l0 : GLayer) : Geo :=
       (defaultize l0.bottom (canonLayers s g.layers).length),
     connections := g.connections, layers := canonLayers s g.layers }
 
-theorem read_body {g : Geo} {L LL : Nat} {s : Rat} (w : WFP g L LL s) (hk : LayerCentresKept g = true) (fuel : Nat) :
+theorem read_body {g : Geo} {L LL : Nat} {s : Rat} (w : WFP g L LL s) (fuel : Nat) :
     readSections SP (fuel + 7) (st0 g) (bodyLines g s) = .ok (canonGeo g) := by
-  have hk' : layerCentresKeptAux s none g.layers = true := by
-    unfold LayerCentresKept at hk; rw [w.sOf] at hk; exact hk
   unfold bodyLines
   -- VERTICES
   rw [readSections_kw _ _ _ _ _ kw_verti.1 kw_verti.2,
@@ -207,7 +205,7 @@ theorem read_body {g : Geo} {L LL : Nat} {s : Rat} (w : WFP g L LL s) (hk : Laye
   rw [show ({ st2 g s with connections := (st2 g s).connections ++ g.connections } : Geo) = st3 g s from rfl]
   simp only [Except.bind]
   -- LAYERS
-  obtain ⟨l0, hl0, hlay⟩ := readSection_layer (env_of w (st3 g s) rfl) g.layers rfl w.layersNe w.layers w.layersNodup hk'
+  obtain ⟨l0, hl0, hlay⟩ := readSection_layer (env_of w (st3 g s) rfl) g.layers rfl w.layersNe w.layers w.layersNodup
     (tailSurf g s (tailWells g s [['\n']]))
   rw [readSections_kw _ _ _ _ _ kw_layer.1 kw_layer.2, hlay]
   have e4 : ({ (st3 g s) with layers := (canonLayers s g.layers), columns := ((st3 g s).columns.map (defaultize l0.bottom (canonLayers s g.layers).length)) } : Geo) = st4 g s l0 := rfl
@@ -289,9 +287,8 @@ theorem bodyLines_length (g : Geo) (s : Rat) : ∃ f, (bodyLines g s).length + 1
     omega
   omega
 
-/-- **Round trip**: a well-formed geometry whose layer centres are kept is written to a text that
-    reads back as its canonical form. -/
-theorem roundtrip {g : Geo} (hwf : WF g = true) (hk : LayerCentresKept g = true) :
+/-- **Round trip**: a well-formed geometry is written to a text that reads back as its canonical form. -/
+theorem roundtrip {g : Geo} (hwf : WF g = true) :
     ∃ t, write g = .ok t ∧ GeoFile.read t = .ok (canonGeo g) := by
   obtain ⟨L, LL, s, w⟩ := wfp_of hwf
   obtain ⟨t, ht, hl⟩ := pyLines_write w
@@ -305,6 +302,6 @@ theorem roundtrip {g : Geo} (hwf : WF g = true) (hk : LayerCentresKept g = true)
   rw [if_pos htype]
   obtain ⟨f, hf⟩ := bodyLines_length g s
   rw [hf]
-  exact read_body w hk f
+  exact read_body w f
 
 end Proofs.GeoFile
